@@ -11,9 +11,11 @@ use shared::dataset_index::{GraphId, Quad};
 use std::collections::BTreeSet;
 
 #[derive(Serialize, Deserialize, Clone, Debug)]
+pub struct Flt { pub var: String, pub neq: bool, pub value: String }
+#[derive(Serialize, Deserialize, Clone, Debug)]
 pub enum UStep {
     InsertData(Vec<QP>), DeleteData(Vec<QP>),
-    InsertWhere { tpl: Vec<QP>, pat: Vec<QP> }, DeleteTplWhere { tpl: Vec<QP>, pat: Vec<QP> }, Modify { del: Vec<QP>, ins: Vec<QP>, pat: Vec<QP> }, DeleteWhere { pat: Vec<QP> },
+    InsertWhere { tpl: Vec<QP>, pat: Vec<QP>, #[serde(default)] flt: Option<Flt> }, DeleteTplWhere { tpl: Vec<QP>, pat: Vec<QP>, #[serde(default)] flt: Option<Flt> }, Modify { del: Vec<QP>, ins: Vec<QP>, pat: Vec<QP>, #[serde(default)] flt: Option<Flt> }, DeleteWhere { pat: Vec<QP> },
     Rejected(String), ApiAdd(String, String, String), ApiDeleteDefault(String, String, String), Select, Rebuild, OtherSessionBlank,
 }
 #[derive(Serialize, Deserialize, Clone, Debug)]
@@ -24,14 +26,17 @@ pub fn render(st: &UStep) -> Option<String> {
     Some(match st {
         UStep::InsertData(q) => format!("INSERT DATA {{ {} }}", block(q)),
         UStep::DeleteData(q) => format!("DELETE DATA {{ {} }}", block(q)),
-        UStep::InsertWhere { tpl, pat } => format!("INSERT {{ {} }} WHERE {{ {} }}", block(tpl), block(pat)),
-        UStep::DeleteTplWhere { tpl, pat } => format!("DELETE {{ {} }} WHERE {{ {} }}", block(tpl), block(pat)),
-        UStep::Modify { del, ins, pat } => format!("DELETE {{ {} }} INSERT {{ {} }} WHERE {{ {} }}", block(del), block(ins), block(pat)),
+        UStep::InsertWhere { tpl, pat, flt } => format!("INSERT {{ {} }} WHERE {{ {}{} }}", block(tpl), block(pat), flt_txt(flt)),
+        UStep::DeleteTplWhere { tpl, pat, flt } => format!("DELETE {{ {} }} WHERE {{ {}{} }}", block(tpl), block(pat), flt_txt(flt)),
+        UStep::Modify { del, ins, pat, flt } => format!("DELETE {{ {} }} INSERT {{ {} }} WHERE {{ {}{} }}", block(del), block(ins), block(pat), flt_txt(flt)),
         UStep::DeleteWhere { pat } => format!("DELETE WHERE {{ {} }}", block(pat)),
         UStep::Rejected(t) => t.clone(),
         _ => return None,
     })
 }
+fn flt_txt(f: &Option<Flt>) -> String { match f { Some(f) => format!(" FILTER (?{} {} <{}>) ", f.var, if f.neq { "!=" } else { "=" }, f.value), None => String::new() } }
+/// group-scoped FILTER over a variable of the pattern: an unbound variable is an error, i.e. the solution is dropped
+fn flt_apply(sols: Vec<qm::Binding>, f: &Option<Flt>) -> Vec<qm::Binding> { match f { None => sols, Some(f) => sols.into_iter().filter(|b| match b.get(&f.var) { Some(v) => (*v == f.value) != f.neq, None => false }).collect() } }
 const REAL_FRESH: &str = "_:kolibrie-update-";
 pub fn dump(db: &SparqlDatabase) -> Result<Store, String> {
     let d = |id: u32| db.decode_any(id).ok_or_else(|| format!("stored id {} does not decode", id));
@@ -55,6 +60,12 @@ impl Vocab {
         let vars = ["a", "b", "c"]; let k = 1 + r.usize(2);
         let gsel = match r.below(4) { 0 => G::Named(self.g(r)), 1 => G::Var("g".into()), _ => G::Default };
         (0..k).map(|i| QP { s: if r.chance(1, 4) { T::Iri(self.n(r)) } else { T::Var(vars[i % 3].into()) }, p: if r.chance(1, 6) { T::Var("pp".into()) } else { T::Iri(self.p(r)) }, o: if r.chance(1, 4) { self.obj(r) } else { T::Var(vars[(i + 1) % 3].into()) }, g: if r.chance(1, 6) { self.gr(r) } else { gsel.clone() } }).collect()
+    }
+    pub fn filter(&self, r: &mut Rng, pat: &[QP]) -> Option<Flt> {
+        if !r.chance(1, 4) { return None; }
+        let vars: Vec<String> = pat.iter().flat_map(|q| [&q.s, &q.o]).filter_map(|t| if let T::Var(v) = t { Some(v.clone()) } else { None }).collect();
+        if vars.is_empty() { return None; }
+        Some(Flt { var: r.pick(&vars).clone(), neq: r.chance(2, 3), value: self.n(r) })
     }
     pub fn template(&self, r: &mut Rng, insert: bool) -> Vec<QP> {
         let vars = ["a", "b", "c"]; let k = 1 + r.usize(2);
@@ -86,9 +97,9 @@ pub fn gen_steps(r: &mut Rng, cfg: &mut Rng, n: usize) -> Vec<UStep> {
         steps.push(match r.weighted(&[5, 2, 3, 2, 3, 2, w_rej, w_api, w_api, 1, 1, 1]) {
             0 => { let k = 1 + r.usize(4); UStep::InsertData(v.ground(r, k, true)) }
             1 => { let k = 1 + r.usize(2); UStep::DeleteData(v.ground(r, k, false)) }
-            2 => UStep::InsertWhere { tpl: v.template(r, true), pat: v.pattern(r) },
-            3 => UStep::DeleteTplWhere { tpl: v.template(r, false), pat: v.pattern(r) },
-            4 => { if r.chance(1, 4) { let a = T::Var("a".into()); let b = T::Var("b".into()); let p = T::Iri(v.p(r)); UStep::Modify { del: vec![QP { s: a.clone(), p: p.clone(), o: b.clone(), g: G::Default }], ins: vec![QP { s: b.clone(), p: p.clone(), o: a.clone(), g: G::Default }], pat: vec![QP { s: a, p, o: b, g: G::Default }] } } else { UStep::Modify { del: v.template(r, false), ins: v.template(r, true), pat: v.pattern(r) } } }
+            2 => { let pat = v.pattern(r); let flt = v.filter(r, &pat); UStep::InsertWhere { tpl: v.template(r, true), pat, flt } }
+            3 => { let pat = v.pattern(r); let flt = v.filter(r, &pat); UStep::DeleteTplWhere { tpl: v.template(r, false), pat, flt } }
+            4 => { if r.chance(1, 4) { let a = T::Var("a".into()); let b = T::Var("b".into()); let p = T::Iri(v.p(r)); UStep::Modify { del: vec![QP { s: a.clone(), p: p.clone(), o: b.clone(), g: G::Default }], ins: vec![QP { s: b.clone(), p: p.clone(), o: a.clone(), g: G::Default }], pat: vec![QP { s: a, p, o: b, g: G::Default }], flt: None } } else { let pat = v.pattern(r); let flt = v.filter(r, &pat); UStep::Modify { del: v.template(r, false), ins: v.template(r, true), pat, flt } } }
             5 => UStep::DeleteWhere { pat: v.pattern(r) },
             6 => UStep::Rejected(r.pick(&REJECTED).to_string()),
             7 => UStep::ApiAdd(v.n(r), v.p(r), v.n(r)),
@@ -114,9 +125,9 @@ pub fn step(db: &mut SparqlDatabase, other: &mut SparqlDatabase, m: &mut Store, 
     let expect: Option<(BTreeSet<Q>, BTreeSet<Q>)> = match st {
         UStep::InsertData(q) => Some((BTreeSet::new(), qm::inst(q, &[qm::Binding::new()], true, bnctr))),
         UStep::DeleteData(q) => Some((qm::inst(q, &[qm::Binding::new()], false, bnctr), BTreeSet::new())),
-        UStep::InsertWhere { tpl, pat } => { let sols = qm::matchq(m, pat); Some((BTreeSet::new(), qm::inst(tpl, &sols, true, bnctr))) }
-        UStep::DeleteTplWhere { tpl, pat } => { let sols = qm::matchq(m, pat); Some((qm::inst(tpl, &sols, false, bnctr), BTreeSet::new())) }
-        UStep::Modify { del, ins, pat } => { let sols = qm::matchq(m, pat); Some((qm::inst(del, &sols, false, bnctr), qm::inst(ins, &sols, true, bnctr))) }
+        UStep::InsertWhere { tpl, pat, flt } => { let sols = flt_apply(qm::matchq(m, pat), flt); Some((BTreeSet::new(), qm::inst(tpl, &sols, true, bnctr))) }
+        UStep::DeleteTplWhere { tpl, pat, flt } => { let sols = flt_apply(qm::matchq(m, pat), flt); Some((qm::inst(tpl, &sols, false, bnctr), BTreeSet::new())) }
+        UStep::Modify { del, ins, pat, flt } => { let sols = flt_apply(qm::matchq(m, pat), flt); Some((qm::inst(del, &sols, false, bnctr), qm::inst(ins, &sols, true, bnctr))) }
         UStep::DeleteWhere { pat } => { let sols = qm::matchq(m, pat); Some((qm::inst(pat, &sols, false, bnctr), BTreeSet::new())) }
         _ => None,
     };
@@ -160,7 +171,7 @@ impl Prop for C03 {
     type Case = UpdCase;
     fn id(&self) -> &'static str { "C03" }
     fn expected_counters(&self) -> Vec<&'static str> { vec!["fault.direct_api_mutation_makes_statistics_stale", "probe.statistics_cached_before_later_updates", "fault.rejected_operation", "probe.same_quad_deleted_and_inserted", "probe.fresh_blank_nodes_created"] }
-    fn budget(&self, tier: Tier) -> Budget { match tier { Tier::Quick => Budget { runs: 3000, wall_s: 60, recheck: 30 }, Tier::Thorough => Budget { runs: 150_000, wall_s: 1500, recheck: 100 } } }
+    fn budget(&self, tier: Tier) -> Budget { match tier { Tier::Quick => Budget { runs: 10_000, wall_s: 60, recheck: 30 }, Tier::Thorough => Budget { runs: 800_000, wall_s: 1200, recheck: 100 } } }
     fn hash_seed(&self, c: &UpdCase) -> u64 { c.hash_seed }
     fn gen(&self, seed: u64, _i: u64, _t: Tier) -> UpdCase {
         let mut r = Rng::sub(seed, "workload"); let mut cfg = Rng::sub(seed, "swarm");
@@ -187,9 +198,9 @@ impl Prop for C03 {
             let mut push = |ns: UStep| { let mut s = c.steps.clone(); s[i] = ns; out.push(UpdCase { steps: s, ..c.clone() }); };
             match st {
                 UStep::InsertData(q) if q.len() > 1 => for x in shrink_vec(q) { if !x.is_empty() { push(UStep::InsertData(x)); } },
-                UStep::InsertWhere { tpl, pat } => { for x in shrink_vec(tpl) { if !x.is_empty() { push(UStep::InsertWhere { tpl: x, pat: pat.clone() }); } } for x in shrink_vec(pat) { if !x.is_empty() { push(UStep::InsertWhere { tpl: tpl.clone(), pat: x }); } } }
-                UStep::DeleteTplWhere { tpl, pat } => { for x in shrink_vec(tpl) { if !x.is_empty() { push(UStep::DeleteTplWhere { tpl: x, pat: pat.clone() }); } } for x in shrink_vec(pat) { if !x.is_empty() { push(UStep::DeleteTplWhere { tpl: tpl.clone(), pat: x }); } } }
-                UStep::Modify { del, ins, pat } => { for x in shrink_vec(del) { push(UStep::Modify { del: x, ins: ins.clone(), pat: pat.clone() }); } for x in shrink_vec(ins) { push(UStep::Modify { del: del.clone(), ins: x, pat: pat.clone() }); } for x in shrink_vec(pat) { if !x.is_empty() { push(UStep::Modify { del: del.clone(), ins: ins.clone(), pat: x }); } } }
+                UStep::InsertWhere { tpl, pat, flt } => { for x in shrink_vec(tpl) { if !x.is_empty() { push(UStep::InsertWhere { tpl: x, pat: pat.clone(), flt: flt.clone() }); } } for x in shrink_vec(pat) { if !x.is_empty() { push(UStep::InsertWhere { tpl: tpl.clone(), pat: x, flt: None }); } } if flt.is_some() { push(UStep::InsertWhere { tpl: tpl.clone(), pat: pat.clone(), flt: None }); } }
+                UStep::DeleteTplWhere { tpl, pat, flt } => { for x in shrink_vec(tpl) { if !x.is_empty() { push(UStep::DeleteTplWhere { tpl: x, pat: pat.clone(), flt: flt.clone() }); } } for x in shrink_vec(pat) { if !x.is_empty() { push(UStep::DeleteTplWhere { tpl: tpl.clone(), pat: x, flt: None }); } } if flt.is_some() { push(UStep::DeleteTplWhere { tpl: tpl.clone(), pat: pat.clone(), flt: None }); } }
+                UStep::Modify { del, ins, pat, flt } => { for x in shrink_vec(del) { push(UStep::Modify { del: x, ins: ins.clone(), pat: pat.clone(), flt: flt.clone() }); } for x in shrink_vec(ins) { push(UStep::Modify { del: del.clone(), ins: x, pat: pat.clone(), flt: flt.clone() }); } for x in shrink_vec(pat) { if !x.is_empty() { push(UStep::Modify { del: del.clone(), ins: ins.clone(), pat: x, flt: None }); } } if flt.is_some() { push(UStep::Modify { del: del.clone(), ins: ins.clone(), pat: pat.clone(), flt: None }); } }
                 UStep::DeleteWhere { pat } if pat.len() > 1 => for x in shrink_vec(pat) { if !x.is_empty() { push(UStep::DeleteWhere { pat: x }); } },
                 _ => {}
             }
